@@ -11,13 +11,13 @@
    what this module adds is the exact prediction of WHICH checkpoints complete with WHICH snapshots, so that any other way of
    assembling a checkpoint (stale acks, reused ids, missing contexts) shows as a difference from the prediction. *)
 EXTENDS Naturals, Sequences, FiniteSets, TLC
-CONSTANTS N, Cap, MaxHist, MaxCkpt
+CONSTANTS N, Cap, MaxHist, MaxCkpt, RecordHist    \* RecordHist = FALSE: finite state space for liveness checking
 VARIABLES next, qP, qC, stP, stC, pending, acks, nextId, ackq, done, lost, hist
 vars == <<next, qP, qC, stP, stC, pending, acks, nextId, ackq, done, lost, hist>>
 Ctx == {"c1", "c2"}
 Init == /\ next = 1 /\ qP = <<>> /\ qC = <<>> /\ stP = <<>> /\ stC = <<>> /\ pending = 0 /\ acks = [c \in {} |-> 0]
         /\ nextId = 1 /\ ackq = <<>> /\ done = <<>> /\ lost = {} /\ hist = <<>>
-H(a) == hist' = Append(hist, a)
+H(a) == hist' = IF RecordHist THEN Append(hist, a) ELSE hist
 Ingest == /\ next <= N /\ Len(qP) < Cap
           /\ qP' = Append(qP, <<"ev", next>>) /\ next' = next + 1 /\ H("ingest")
           /\ UNCHANGED <<qC, stP, stC, pending, acks, nextId, ackq, done, lost>>
@@ -66,4 +66,9 @@ ConsistentCut == \A i \in 1..Len(done) : done[i].p = done[i].c
 \* every completed checkpoint is made of acks that answer ITS barrier: ids strictly increase and no id completes twice
 IdsFresh == \A i, j \in 1..Len(done) : i < j => done[i].id < done[j].id
 StateView == <<next, qP, qC, stP, stC, pending, acks, nextId, ackq, done, lost>>
+\* ---- liveness (beyond the listed properties): under weak fairness of the contexts and of try_complete, does a checkpoint that was
+\* initiated ever complete?  It does not when a barrier could not be enqueued (full queue at initiation): the checkpoint stays pending
+\* for ever and, since a pending checkpoint blocks every later initiation, checkpointing stops for good.
+FairSpec == Init /\ [][Next]_vars /\ WF_vars(StepP) /\ WF_vars(StepC) /\ WF_vars(Drain)
+EventuallyCompletes == [](pending # 0 => <>(pending = 0))
 =======================================================================
